@@ -164,6 +164,10 @@ type Program struct {
 	Mk func(log *[]string) Inputs
 	// Escaper: "" = default HTML, "nil" = none, or a name registered in Escapers.
 	Escaper string
+	// Quirks switches the reference to a named *deviant* behaviour of the
+	// implementation. Never set by generators: the driver sets one quirk at a time
+	// only to recognise a recorded known finding by its exact semantics.
+	Quirks map[string]bool
 }
 
 type Inputs struct {
